@@ -9,7 +9,10 @@ pub fn sqrt<const B: Word>(&self, x: &Repr<B>) -> Rounded<FBig<R, B>>
         // C03 domain: the operand fits the context precision
         ndigits(B as int, x.significand.v()) <= self.precision,
         // machine ranges (overflow of isize is outside this contract)
-        self.precision < 0x1000_0000_0000_0000, -0x1000_0000_0000_0000 < x.exponent < 0x1000_0000_0000_0000,
+        // resource limit: exponent overflow is a documented panic (C16), not modelled: precision below 2^56 keeps the
+        // digit shift (<= 2 * precision) and the split of repr_round within `pos_room` (bit position `pos * log2(B)`
+        // in usize); with the exponent range `Repr::new` has room for the exponent
+        self.precision < 0x100_0000_0000_0000, -0x1000_0000_0000_0000 < x.exponent < 0x1000_0000_0000_0000,
     ensures
         x.significand.v() == 0 ==> (map_repr(ret) matches Approximation::Exact(r) && r.significand.v() == 0 && r.exponent == 0),
         x.significand.v() > 0 ==> sqrt_post(R::md(), B as int, self.precision as nat, x.significand.v(), x.exponent as int, map_repr(ret)),
@@ -114,12 +117,13 @@ pub fn sqrt<const B: Word>(&self, x: &Repr<B>) -> Rounded<FBig<R, B>>
                     assert(sqrt_round_def(R::md(), V, mm));
                 }
             } @*/
-        res.map(|signif| /*@ -> (r: Repr<B>) ensures same_value(b, r.significand.v(), r.exponent as int, signif.v(), exp as int),
+        res.map(|signif| /*@ -> (r: Repr<B>) requires exp_room(exp as int, ndigits(b, signif.v()) as int), ensures same_value(b, r.significand.v(), r.exponent as int, signif.v(), exp as int),
                     r.significand.v() == 0 || r.significand.v() % b != 0, signif.v() == 0 ==> r.significand.v() == 0 && r.exponent == 0 @*/
                 Repr::new(signif, exp))
             .and_then(|v| /*@ -> (o: Rounded<Repr<B>>)
                     requires !(v.significand.v() == 0 && v.exponent != 0),
                         v.exponent as int + ndigits(b, v.significand.v()) <= isize::MAX, ndigits(b, v.significand.v()) <= isize::MAX,
+                        pos_room(ndigits(b, v.significand.v()) as int),
                     ensures round_once(R::md(), b, self.precision, v.significand.v(), v.exponent as int, o) @*/
                 self.repr_round(v))
             .map(|v| /*@ -> (r: FBig<R, B>) ensures r.repr == v, r.context == *self @*/ FBig::new(v, *self))
